@@ -160,11 +160,14 @@ def run(prog: Program, chk: Check):
     go = prog.func(js_mod, f"{js_cls}.generate_obj")
     gj = prog.func(js_mod, f"{js_cls}.generate")
     use_ns = None
+    go_p = [q for q in go.params() if q != "self"][0]
+    fld_vars = {(lp.target.elts[-1] if isinstance(lp.target, ast.Tuple) else lp.target).id for lp in walk_local(go.node) if isinstance(lp, ast.For) and f"{go_p}.fields" in norm(lp.iter)
+                and isinstance((lp.target.elts[-1] if isinstance(lp.target, ast.Tuple) else lp.target), ast.Name)}
     for t in fstrings(go):
-        m = re.match(r"RTMA\.(\w+)\.\{field\.type_name\}", t)
-        if m and "aliases" in t:
+        m = re.match(r"RTMA\.(\w+)\.\{(\w+)\.type_name\}", t)
+        if m and "aliases" in t and m.group(2) in fld_vars:
             use_ns = m.group(1)
-    called = any(re.search(r"\{ftype\}\(\)", t) for t in fstrings(go))
+    called = any(re.search(r"\{\w+\}\(\)", t) for t in fstrings(go))
     if use_ns is None or not called:
         raise AnalysisError("anchor vanished: JS field templates (RTMA.aliases.{field.type_name} / {ftype}())")
     # each `if td.type_name in <table>` branch of generate_type_alias
@@ -207,8 +210,8 @@ def run(prog: Program, chk: Check):
         if "message_defs" in norm(st.test):
             continue  # handle_alias never resolves an alias to a message: unreachable branch
         for t in fstrings_of(st):
-            m = re.match(r"RTMA\.(\w+)\.\{td\.name\}\s*=", t)
-            if m:
+            m = re.match(r"RTMA\.(\w+)\.\{(\w+)\.name\}\s*=", t)
+            if m and m.group(2) == [q for q in ga.params() if q != "self"][0]:
                 alias_ns.add(m.group(1))
     for ns in sorted(alias_ns):
         okn = ns in created and created[ns] < loops.get("aliases", 0)
@@ -216,7 +219,7 @@ def run(prog: Program, chk: Check):
                  f"the alias section assigns RTMA.{ns}.<name> but `RTMA.{ns} = {{}}` is emitted " + ("later" if ns in created else "never") + ": TypeError at module load")
     fills = [t for t in fstrings(go) if ".fill(" in t]
     per_elem = [t for t in fstrings(go) if "Array.from(" in t]
-    J.decide(not any("fill({ftype}())" in t for t in fills) and (bool(per_elem) or not fills), fkey(go, "array-elements"), where(go),
+    J.decide(not any(re.search(r"fill\(\{\w+\}\(\)\)", t) for t in fills) and (bool(per_elem) or not fills), fkey(go, "array-elements"), where(go),
              "array members are constructed per element", "array fields are emitted as `Array(n).fill(f())`: one object shared by all elements when f is a struct/message factory")
 
     # ---- T branch type agreement --------------------------------------------------------------------------------------
